@@ -1,7 +1,8 @@
 """Driver for the simp engine (parser and streams under a scripted caller)."""
 import subprocess
 
-BUILD = '/verif/build'
+import os
+BUILD = os.environ.get('VERIF_BUILD', '/verif/build')
 
 
 def run_jobs(lines, timeout=600):
